@@ -229,6 +229,8 @@ void run_history(Tape &t, Ctx &c) {
         prm.ncycle = static_cast<unsigned>(t.u(1, 2));
         { int w = static_cast<int>(t.u(0, 9)); prm.pre_cycles = w == 9 ? 0u : (w == 1 || w == 2) ? 2u : 1u; } // pre_cycles=0 makes apply a plain copy: rare
         prm.allow_rebuild = !t.chance(1, 10);
+        // a W-cycle costs ncycle^levels coarse solves: keep the depth bounded when ncycle > 1 (slowly coarsening graphs reach dozens of levels)
+        if (prm.ncycle > 1 && prm.max_levels > 6) prm.max_levels = 6;
     }
     // ---- history
     int hlen = static_cast<int>(t.u(0, 8));
@@ -246,16 +248,9 @@ void run_history(Tape &t, Ctx &c) {
         auto k0 = to_crs<double>(K0);
         try { amg.reset(new AMG(*k0, prm)); }
         catch (const ZeroCoarseLevel &z) {
-            c.label("zero-column-prolongation");
-            c.desc << " [level " << z.level << " with " << z.fine_rows << " unknowns got a prolongation with 0 columns]";
-#ifdef C03_MINIMISE_ZERO_COARSE // development switch: report the region as a failure without crashing, so that rapidcheck can shrink a witness
-            VF_REQUIRE(false, "prolongation with zero columns on level " << z.level);
-#endif
-            if (c.known("F-zero-coarse-level")) return;
-            // exclusion lifted (witness replay): let the library run into it
-            log->clear(); log->guard_zero_coarse = false;
-            amg.reset(new AMG(*k0, prm));
-            VF_REQUIRE(false, "amg built a hierarchy with a zero-sized coarse level below level " << z.level);
+            // the recording policy stops the construction here: amg would go on to build a 0 x 0 coarse matrix and crash in the direct
+            // solver (that was the defect fixed by ef9207a: all aggregates smaller than nullspace.cols must be signalled as an empty level)
+            VF_REQUIRE(false, "level " << z.level << " with " << z.fine_rows << " unknowns got a prolongation with 0 columns instead of an empty-level signal");
         }
         catch (const std::runtime_error &e) { c.label("ctor-rejected"); c.desc << " constructor rejected the matrix: " << e.what(); return; } // clean rejection (zero pivot in ILU / skyline LU)
     }
